@@ -82,7 +82,17 @@ func generate(seed uint64, prop string) simrt.Case {
 				acts = append(acts, simrt.Action{K: "r", N: dir, A: int64(sz)})
 			}
 		}
-		if r.Chance(1, 2) {
+		if r.Chance(1, 8) {
+			// a long stream in one direction and one frame replayed at a chosen distance (nonce periodicity)
+			acts = nil
+			for i := 0; i < 10; i++ {
+				acts = append(acts, simrt.Action{K: "w", N: 0, A: 32768}, simrt.Action{K: "w", N: 1, A: 32768})
+			}
+			acts = append(acts, simrt.Action{K: "r", N: 0, A: 70000}, simrt.Action{K: "r", N: 1, A: 70000})
+			dist := []int{1, 2, 64, 127, 128, 129, 255, 256}[r.Intn(8)]
+			at := hsUnits + dist + r.Intn(20)
+			acts = append(acts, simrt.Action{K: "op", N: r.Intn(2), A: int64(at), S: "replay-at", B: int64(dist)})
+		} else if r.Chance(1, 2) {
 			nops := 1 + r.Intn(2)
 			for i := 0; i < nops; i++ {
 				acts = append(acts, simrt.Action{K: "op", N: r.Intn(2), A: int64(r.Intn(9)), S: opKinds[r.Intn(len(opKinds))], B: int64(r.Intn(1 << 16))})
@@ -202,6 +212,9 @@ func relayOps(d *simnet.Dir, ops []simrt.Action, faults map[string]int) func() (
 				}
 				passes = passes || first == i
 				return [][]byte{unit, seen[int(op.B)%i]}, false
+			case "replay-at":
+				// the frame `distance` units back is delivered in the place of this one
+				return [][]byte{seen[i-int(op.B)]}, false
 			case "cut":
 				return [][]byte{unit[:int(op.B)%len(unit)]}, true
 			}
